@@ -43,7 +43,7 @@ HAND = {
         ("- => Option::Some((- self.cursor + self.end))", [[]])], {}),
     # ---- ser::flavors::Slice (C05.G)
     "<ser::flavors::Slice<'a> as ->::new": spec([
-        ("- => Slice{_pl: PhantomData, cursor: as_mut_ptr(arg1), end: (as_mut_ptr(arg1) + len(arg1)), start: as_mut_ptr(arg1)}", [[]])], {}),
+        ("- => Slice{_pl: PhantomData, cursor: as_ptr(arg1), end: (as_ptr(arg1) + len(arg1)), start: as_ptr(arg1)}", [[]])], {}),
     "<ser::flavors::Slice<'a> as Flavor>::try_push": spec([
         ("*self.cursor := arg2; self.cursor := (self.cursor + 1) => Result::Ok(())",
          [[L("self.cursor - self.end", (None, -1))]]),
@@ -72,7 +72,7 @@ for _r, _tr in (("io::IOReader", "Read"), ("eio::EIOReader", "Read")):
     HAND["<de::flavors::io::%s<'de, T> as Flavor>::finalize" % _r] = spec([
         ("- => Result::Ok((self.reader, from_raw_parts_mut(self.buff.cursor, (- self.buff.cursor + self.buff.end))))", [[]])], {})
     HAND["<de::flavors::io::%s<'de, T> as ->::new" % _r] = spec([
-        ("- => %s{buff: SlidingBuffer{_pl: PhantomData, cursor: as_mut_ptr(arg2), end: (as_ptr(arg2) + len(arg2))}, reader: arg1}" % _r.split("::")[1], [[]])], {})
+        ("- => %s{buff: SlidingBuffer{_pl: PhantomData, cursor: as_ptr(arg2), end: (as_ptr(arg2) + len(arg2))}, reader: arg1}" % _r.split("::")[1], [[]])], {})
 
 
 # ---- the COBS accumulator (C08, C09).  One outcome per case of the property's case analysis; POS = index of the first zero byte.
